@@ -682,3 +682,11 @@ def replay_file(path, quiet=False, ignore_known=False):
                 print("KNOWN-FINDING: property=%s [%s] (replayed case)" % (prop, k))
         print("replay holds: property=%s subcheck=%s" % (prop, rep["subcheck"]))
     return 0
+
+
+def target(value, label=""):
+    """hypothesis.target that is a no-op when a saved case is replayed outside Hypothesis."""
+    from hypothesis import target as _t
+    from hypothesis.control import currently_in_test_context
+    if currently_in_test_context():
+        _t(float(value), label=label)
